@@ -14,7 +14,7 @@ import (
 )
 
 var c10Families = []string{"valid", "mutated", "bytes", "natural-join", "union-chain", "cte-cycle", "brackets", "quotes", "from-path", "parallel-fail", "bg-fail", "await", "distinct-subq-star",
-	"object-compare", "group-object", "limit-weird", "deep-nesting", "doc-shape", "native-types", "nil-doc", "vars-nil", "selector-in-sql", "parallel-fresh", "reexec", "parallel-vars", "many-inner", "marker-select", "nested-slots", "parallel-many-fail"}
+	"object-compare", "group-object", "limit-weird", "deep-nesting", "doc-shape", "native-types", "nil-doc", "vars-nil", "selector-in-sql", "parallel-fresh", "reexec", "parallel-vars", "many-inner", "marker-select", "nested-slots", "parallel-many-fail", "order-null-keys", "parallel-like"}
 
 func init() {
 	floor := []string{}
@@ -427,6 +427,42 @@ func c10Build(c *fw.Case) c10Case {
 		cs.doc = map[string]any{"lt": lt, "rt": rt}
 		j := gen.Pick(c.R, []string{"PARALLEL JOIN", "PARALLEL LEFT JOIN", "PARALLEL HASH_JOIN", "PARALLEL STRAIGHT_JOIN", "PARALLEL LEFT HASH_JOIN"})
 		on := gen.Pick(c.R, []string{"x.k = y.k AND NOT x.ok", "x.k >= y.k AND x.ok", "x.k = y.k AND RAISE_WHEN(x.ok, 'dirty')", "x.k = y.k AND VPANICNULL(x.z)", "x.k <= y.k OR VPANICNULL(x.z)", "x.k = y.k AND IF(TO_LOWER(x.z) = 'a', TRUE, FALSE)"})
+		cs.sql = "SELECT x.k AS l, y.k AS r FROM lt x " + j + " rt y ON " + on
+		cs.opts = OptSet{}
+	case "order-null-keys":
+		// several sort keys, and rows that are NULL or lack the key on a key that is not the last
+		n := 3 + c.Intn(12)
+		rows := make([]any, n)
+		for i := range rows {
+			row := map[string]any{"rid": float64(i), "k3": float64(c.Intn(3))}
+			switch c.Intn(3) {
+			case 0:
+				row["k1"] = nil
+			case 1:
+				row["k1"] = float64(c.Intn(2))
+			}
+			if c.Chance(0.5) {
+				row["k2"] = gen.Pick(c.R, []any{nil, "a", "b"})
+			}
+			rows[i] = row
+		}
+		cs.doc = map[string]any{"t1": rows}
+		cs.sql = gen.Pick(c.R, []string{"SELECT * FROM t1 ORDER BY k1, k3", "SELECT * FROM t1 ORDER BY k1 DESC, k2, k3 DESC", "SELECT rid, k1, k2 FROM t1 ORDER BY k2, k1, rid", "SELECT * FROM t1 ORDER BY nokey, nokey2, rid DESC",
+			"SELECT k1, COUNT(*) AS n FROM t1 GROUP BY k1 ORDER BY k1, n", "SELECT DISTINCT k1, k2 FROM t1 ORDER BY k1, k2 LIMIT 5"})
+		cs.opts = OptSet{}
+	case "parallel-like":
+		// LIKE / NOT LIKE in the ON of a PARALLEL nested-loop join with many key groups
+		n := 20 + c.Intn(80)
+		lt, rt := make([]any, n), make([]any, 5+c.Intn(20))
+		for i := range lt {
+			lt[i] = map[string]any{"k": float64(i), "s": fmt.Sprintf("%c%d", 'a'+rune(i%5), i)}
+		}
+		for i := range rt {
+			rt[i] = map[string]any{"k": float64(c.Intn(n)), "p": gen.Pick(c.R, []string{"a%", "%1", "b_", "%", "c%2"})}
+		}
+		cs.doc = map[string]any{"lt": lt, "rt": rt}
+		j := gen.Pick(c.R, []string{"PARALLEL JOIN", "PARALLEL LEFT JOIN", "PARALLEL STRAIGHT_JOIN", "PARALLEL RIGHT JOIN"})
+		on := gen.Pick(c.R, []string{"x.s LIKE y.p", "x.s NOT LIKE y.p", "x.s LIKE 'a%' OR x.k = y.k", "x.k >= y.k AND x.s LIKE y.p", "x.s LIKE '%1' AND x.s NOT LIKE y.p"})
 		cs.sql = "SELECT x.k AS l, y.k AS r FROM lt x " + j + " rt y ON " + on
 		cs.opts = OptSet{}
 	case "marker-select":
